@@ -125,7 +125,7 @@ def work(shard, tier):
     for name in shard['modules']:
         mod = mods[name]
         rng = C.rng_for('C04', name)
-        nums = C.rich_corpus(name, 5 if tier == 'quick' else 40, rng, n_synth=8 if tier == 'quick' else 60)
+        nums = C.rich_corpus(name, 5 if tier == 'quick' else 150, rng, n_synth=8 if tier == 'quick' else 250)
         if not nums:
             continue
         fsets = format_optsets(name, mod, nums[0])
